@@ -302,6 +302,13 @@ def run(ctx: Ctx) -> None:
         lines_ = ["from typing import Any", "import os, io, re, math, hashlib, shlex, string", "from pathlib import Path"]
         for i, r0 in enumerate(allr):
             lines_.append(((r0.setup or "") + lint_program(r0, i)).rstrip("\n"))
+        # the untyped twin of every idiom: the same statement with unannotated parameters (a check whose version test hangs on what it
+        # knows about an operand's type must still honour the target when it knows nothing)
+        for i, r0 in enumerate(RULES):
+            prog = lint_program(r0, i).split("\n")
+            names_ = list(r0.params) + [n_ for n_ in r0.annot if n_ not in r0.params]
+            prog[0] = f"def _u{i}({', '.join(names_)}):"
+            lines_.append(((r0.setup or "") + "\n".join(prog)).rstrip("\n"))
         import tempfile as _tf
         with _tf.TemporaryDirectory(prefix="c15v-") as tdv:
             vf = Path(tdv) / "shapes.py"
@@ -421,5 +428,5 @@ def run(ctx: Ctx) -> None:
                        not mism, "; ".join(mism))
     ctx.rule("every diagnostic emitted on (idiom corpus + test/data) at every target 3.7..3.13; non-trivial = message with a dated feature or from a gated check; distinct by (code, message, target)")
     ctx.extra["codes_observed"] = len(seen_codes)
-    ctx.resolve_broken({"translate gates": "too-new:", "never_too_new": "too-new:", "monotone": "not-monotone:", "command_line_version_is_the_target": "too-new:", "config_version_otherwise": "target:", "both_sources_disagree": "too-new:",
+    ctx.resolve_broken({"translate gates": "too-new:", "never_too_new": "too-new:", "monotone": "not-monotone:", "command_line_version_is_the_target": "too-new:", "config_version_otherwise": "target:", "both_sources_disagree": "too-new:", "message_switch_only_upgrades": "too-new:", "gated_exists": "too-new:",
                         "translate Settings.merge / get_python_version / load_settings (which version is the target)": "too-new:"}, b.first_error if b else "")
